@@ -183,6 +183,14 @@ impl Store {
     /// Reads and verifies a content-addressed blob, returning its payload.
     fn read_blob(&self, rel: &str) -> Option<Vec<u8>> {
         let data = fs::read(self.root.join(rel)).ok()?;
+        // Blobs are named by the hash of their bytes, so a file that no
+        // longer hashes to its own name is damaged: a miss, like any other
+        // read failure.
+        let name = Path::new(rel).file_stem()?.to_str()?;
+        if content_hash(&data) != name {
+            log::debug!("cache: blob {rel} does not match its content address");
+            return None;
+        }
         let payload = data.strip_prefix(BLOB_MAGIC.as_slice())?;
         let (version, payload) = payload.split_first_chunk::<4>()?;
         if u32::from_le_bytes(*version) != SCHEMA_VERSION {
